@@ -37,11 +37,11 @@ def check(ctx):
                       "in the threshold sweep the actual counts are (fp,tp,tn,fn) = (c0, c1, N- - c0, N+ - c1), the flipped "
                       "counts their complement, '>' is paired with the actual and '<' with the flipped counts, only '>' "
                       "without flip; ThresholdOperation implements '>' / '<' exactly")
-    routines(ctx, "C04")
-    r042_interpolation(ctx)
-    r044_thresholder(ctx)
-    r045_counts(ctx)
-    sweep_structure(ctx, "R04.5")
+    ctx.guard(routines, ctx, "C04")
+    ctx.guard(r042_interpolation, ctx)
+    ctx.guard(r044_thresholder, ctx)
+    ctx.guard(r045_counts, ctx)
+    ctx.guard(sweep_structure, ctx, "R04.5")
 
 
 def _analysis(ctx):
